@@ -429,3 +429,172 @@ def scope_keyed_inputs(ctx: Ctx, modules: tuple[str, ...] = ("cirkit.symbolic.fu
                             out.append(viol("R14h", f.qualname, "inputs-by-scope", f"`{unparse(c)[:70]}` indexes the inputs of a layer by their scopes: inputs with equal scopes (several observed inputs of one product layer all have the empty scope) collide on the key, one survives and the others are silently dropped from the operator's result", f"{f.module.relpath}:{c.lineno}"))
     out.append(ok("R14h", "cirkit.symbolic.functional", "inputs-by-scope", f"{n_fn} operator drivers scanned: no scope-keyed mapping over a layer's inputs", "", nontrivial=(n_fn > 0)))
     return out
+
+
+# ------------------------------------------------------------------------------------------ R14i
+INPLACE_OPS = {"iconcat", "iadd", "ior", "iand", "imul", "ixor", "isub"}
+
+
+def inplace_reduce(ctx: Ctx, modules: tuple[str, ...] = ("cirkit",)) -> list[Ob]:
+    """R14i -- a reduce with an in-place operator owns its accumulator.
+
+    ``functools.reduce(operator.iconcat, seqs)`` without an initial value uses the *first element* of
+    ``seqs`` as the accumulator and extends it in place: whoever still holds that list (a mapping from
+    layers to their blocks, read again for the outputs) sees it grown by everything else.  With an
+    initial value (``reduce(operator.iconcat, seqs, [])``) the accumulator is private."""
+    out: list[Ob] = []
+    n = 0
+    for f in ctx.repo.iter_functions():
+        if not f.module.name.startswith(modules):
+            continue
+        for c in walk_no_nested(f.node):
+            if isinstance(c, ast.Call) and (dotted(c.func) or "").split(".")[-1] == "reduce" and c.args:
+                op = (dotted(c.args[0]) or "").split(".")[-1]
+                if op not in INPLACE_OPS:
+                    continue
+                n += 1
+                site = f"{f.module.relpath}:{c.lineno}"
+                has_init = len(c.args) >= 3 or any(k.arg == "initial" for k in c.keywords)
+                if has_init:
+                    out.append(ok("R14i", f.qualname, f"reduce:{op}", "in-place reduce with its own initial accumulator", site))
+                else:
+                    out.append(viol("R14i", f.qualname, f"reduce:{op}", f"`{unparse(c)[:70]}` extends the first element of its argument in place (no initial value): the list stored for the first key of the mapping now contains every other element, and whatever reads that list afterwards (the outputs of the derived circuit) gets them all", site))
+    out.append(ok("R14i", "cirkit", "in-place-reduces", f"{n} in-place reduce(s) in the package", "", nontrivial=False))
+    return out
+
+
+# ------------------------------------------------------------------------------------------ R14j
+def mst_zero_edges(ctx: Ctx, modules: tuple[str, ...] = ("cirkit.templates.region_graph",)) -> list[Ob]:
+    """R14j -- a dense matrix handed to ``scipy.sparse.csgraph`` has no zero weights between nodes.
+
+    ``csgraph`` reads the zero entries of a *dense* matrix as missing edges.  A maximum spanning tree
+    computed as the minimum spanning tree of the negated weights therefore has to shift non-negative
+    weights (mutual information can be exactly 0 for independent features) away from zero first --
+    ``-(M + c)`` with a positive constant -- or the graph is disconnected for exactly the data sets
+    with an independent pair and the returned 'tree' contains scipy's -9999 predecessors."""
+    out: list[Ob] = []
+    for f in ctx.repo.iter_functions():
+        if not f.module.name.startswith(modules):
+            continue
+        ld = None
+        for c in walk_no_nested(f.node):
+            if isinstance(c, ast.Call) and (dotted(c.func) or "").split(".")[-1] == "minimum_spanning_tree" and c.args:
+                if ld is None:
+                    ld = LocalDefs(f.node)
+                a = c.args[0]
+                if isinstance(a, ast.Name) and len(ld.defs.get(a.id, [])) == 1:
+                    a = ld.defs[a.id][0]
+                site = f"{f.module.relpath}:{c.lineno}"
+                if isinstance(a, ast.UnaryOp) and isinstance(a.op, ast.USub):
+                    inner = a.operand
+                    shifted = isinstance(inner, ast.BinOp) and isinstance(inner.op, ast.Add) and any(isinstance(x, ast.Constant) and isinstance(x.value, (int, float)) and x.value > 0 for x in (inner.left, inner.right))
+                    if shifted:
+                        out.append(ok("R14j", f.qualname, "mst-weights", "the negated weights are shifted by a positive constant: no zero entry is read as a missing edge", site))
+                    else:
+                        out.append(viol("R14j", f.qualname, "mst-weights", f"`{unparse(c)[:70]}` negates the weights without shifting them: a weight of exactly 0 (independent features) is a zero entry of the dense matrix, which scipy.sparse.csgraph reads as 'no edge' -- the spanning forest is disconnected and the tree contains -9999 predecessors", site))
+                else:
+                    out.append(unres("R14j", f.qualname, "mst-weights", f"weights passed as `{unparse(a)[:50]}`: not the negated-dense form, no verdict", site))
+    if not out:
+        out.append(unres("R14j", "cirkit.templates.region_graph", "mst-weights", "no minimum_spanning_tree call found", ""))
+    return out
+
+
+# ------------------------------------------------------------------------------------------ R14k
+def signed_id_keys(ctx: Ctx, modules: tuple[str, ...] = ("cirkit.templates.logic",)) -> list[Ob]:
+    """R14k -- polarity is not encoded in the sign of a variable id.
+
+    Variable ids are 0-based everywhere in cirkit, and ``-0 == 0``: a table keyed by ``+v`` for the
+    positive and ``-v`` for the negated literal gives both literals of variable 0 the same key (the
+    smoothing node of x0 becomes (x0 or x0)).  In the logic package no arithmetic negation is applied
+    to a literal's variable id (``-node.literal``) or to a variable id used as a key."""
+    out: list[Ob] = []
+    n_fn = 0
+    for f in ctx.repo.iter_functions():
+        if not f.module.name.startswith(modules):
+            continue
+        n_fn += 1
+        for n in walk_no_nested(f.node):
+            if isinstance(n, ast.UnaryOp) and isinstance(n.op, ast.USub):
+                o = n.operand
+                if isinstance(o, ast.Attribute) and o.attr in ("literal", "var", "variable"):
+                    out.append(viol("R14k", f.qualname, "signed-id", f"`{unparse(n)}` encodes the negated literal of a variable as the negative of its id: variable 0 is its own negation, so x0 and not-x0 collide", f"{f.module.relpath}:{n.lineno}"))
+    out.append(ok("R14k", "cirkit.templates.logic", "signed-id", f"{n_fn} functions scanned: no negated variable id", "", nontrivial=(n_fn > 0)))
+    return out
+
+
+# ------------------------------------------------------------------------------------------ R14l / R14m
+def zip_of_orderings(ctx: Ctx, modules: tuple[str, ...] = ("cirkit.backend",)) -> list[Ob]:
+    """R14l -- per-graph orderings are merged without truncation.
+
+    ``zip`` stops at its shortest argument.  Merging the layer-wise orderings of several parameter
+    graphs (or circuits) frontier by frontier with ``zip(*orderings)`` silently drops the upper
+    frontiers of every graph deeper than the shallowest one: their output nodes are never folded and
+    ``fold=True`` fails for a fold group whose layers have parameter graphs of different depth."""
+    out: list[Ob] = []
+    n = 0
+    for f in ctx.repo.iter_functions():
+        if not f.module.name.startswith(modules):
+            continue
+        for c in walk_no_nested(f.node):
+            if isinstance(c, ast.Call) and isinstance(c.func, ast.Name) and c.func.id == "zip":
+                txt = unparse(c)
+                if "topological_ordering(" in txt:
+                    n += 1
+                    out.append(viol("R14l", f.qualname, "zip-orderings", f"`{txt[:70]}` merges orderings of several graphs with zip, which truncates to the shallowest graph: the top frontiers (the outputs) of deeper graphs are dropped", f"{f.module.relpath}:{c.lineno}"))
+    out.append(ok("R14l", "cirkit.backend", "zip-orderings", "no zip over topological orderings", "", nontrivial=False))
+    return out
+
+
+def selection_bookkeeping(ctx: Ctx, fq: str = "cirkit.backend.torch.graph.optimize._prioritize_optimization_strategy") -> list[Ob]:
+    """R14m -- the 'already selected?' test of the match prioritisation sees every selection.
+
+    The function keeps one match per module; a module with several candidate matches first asks
+    whether one of them has *already been selected* for another module.  The collection that test
+    consults must contain every selection made so far: the result mapping itself (``.values()``), or
+    a set that is updated in the same block as every store into the result mapping.  A set filled in
+    one branch only (not for modules with a single match) lets two overlapping matches both survive:
+    both rewrites are applied and the optimised circuit computes W3 W2 W2 W1 x instead of W3 W2 W1 x."""
+    f = ctx.repo.func(fq)
+    rets = [r.value for r in walk_no_nested(f.node) if isinstance(r, ast.Return) and isinstance(r.value, ast.Name)]
+    if not rets:
+        return [unres("R14m", fq, "selected-set", "the function does not return a named mapping", f.loc)]
+    res = rets[0].id
+    tests = []
+    for n in ast.walk(f.node):
+        if isinstance(n, ast.Compare) and len(n.ops) == 1 and isinstance(n.ops[0], (ast.In, ast.NotIn)):
+            tests.append(n)
+    consulted = [t for t in tests if "matches" in unparse(t.comparators[0]) or "selected" in unparse(t.comparators[0])]
+    out: list[Ob] = []
+    stores = []
+    blocks: list[list[ast.stmt]] = []
+    for owner in ast.walk(f.node):
+        for field in ("body", "orelse"):
+            blk = getattr(owner, field, None)
+            if isinstance(blk, list):
+                blocks.append(blk)
+    for t in consulted:
+        coll = t.comparators[0]
+        ctxt = unparse(coll)
+        site = f"{f.module.relpath}:{t.lineno}"
+        if res in ctxt:
+            out.append(ok("R14m", fq, "selected-set", f"the test consults the result mapping itself (`{ctxt}`)", site))
+            continue
+        if not isinstance(coll, ast.Name):
+            continue
+        S = coll.id
+        good = False
+        found_store = False
+        for blk in blocks:
+            has_store = any(isinstance(s, ast.Assign) and any(isinstance(tg, ast.Subscript) and unparse(tg.value) == res for tg in s.targets) for s in blk)
+            if not has_store:
+                continue
+            found_store = True
+            has_add = any(isinstance(s, ast.Expr) and isinstance(s.value, ast.Call) and isinstance(s.value.func, ast.Attribute) and unparse(s.value.func.value) == S and s.value.func.attr in ("add", "append", "update") for s in blk)
+            good = has_add
+        if found_store and good:
+            out.append(ok("R14m", fq, "selected-set", f"`{S}` is updated next to every store into {res}", site))
+        elif found_store:
+            out.append(viol("R14m", fq, "selected-set", f"the 'already selected' test consults `{S}`, which is not updated in the block that stores every selection into {res} (it is filled in one branch only): a module with a single match is selected without being recorded, so a later module can select an overlapping match and both rewrites are applied", site))
+    if not out:
+        out.append(unres("R14m", fq, "selected-set", "no membership test on a collection of selected matches found", f.loc))
+    return out
